@@ -22,6 +22,10 @@ def dataset(n, N, variant="distinct"):
         if variant == "duplicates" and N >= 3:
             rows[2] = list(rows[0])
     bases = [BASES[n][i % len(BASES[n])] for i in range(N)]
+    if variant == "no-z":
+        # no row measured entirely in the reference basis: there is nothing the negative-phase chains may start from
+        rot = [b for b in BASES[n] if set(b) != {"Z"}]
+        bases = [rot[i % len(rot)] for i in range(N)]
     return rows, bases
 
 
@@ -122,6 +126,8 @@ class FitDecider:
             return torch.tensor(menu[c], dtype=kwargs.get("dtype", torch.long))
         if name == "randint":
             lo, hi, size = parse_randint(args, kwargs)
+            if hi <= lo:
+                return PASS  # an empty range: torch itself refuses the call
             m = int(np.prod(size)) if len(size) else 1
             menu = randint_menu(lo, hi, m)
             if self.small:
@@ -136,6 +142,9 @@ class FitDecider:
             return torch.tensor(menu[c], dtype=kwargs.get("dtype", torch.long)).reshape(tuple(size))
         if name == "randn" and self.allow_randn:
             return PASS
+        if name in ("rand", "rand_like", "uniform_"):
+            from ..engine.env import LAZY_UNIFORM
+            return LAZY_UNIFORM  # a Bernoulli draw realised as `uniform < p`: decided at the comparison
         raise EngineError(f"random call {name} is not owned by the fit decider")
 
 
